@@ -31,7 +31,7 @@ XT = 1e-9
 
 def floors(tier):
     return {"splits_checked": 700, "zero_iteration_restarts": 700, "next_iterate_compared": 600, "chains_checked": 350,
-            "reduced_maxcor_checked": 250, "splits_with_2plus_pairs": 350, "splits_right_after_a_rejected_pair": 25, "__nontrivial__": 250}
+            "reduced_maxcor_checked": 250, "full_memory_restarts_after_a_reduced_one": 250, "splits_with_2plus_pairs": 350, "splits_right_after_a_rejected_pair": 25, "__nontrivial__": 250}
 
 
 def cases(tier, seed):
@@ -49,7 +49,7 @@ def cases(tier, seed):
                "eps_SY": float(gen.pick(rng, [2.2e-16, 1e-3, 1e-2, 0.1])) if hard else 2.2e-16,
                "long_chain": bool(rng.random() < 0.25), "eps": float(gen.pick(rng, [1e-8, 1e-8, 1e-3, 1e-1])),
                "jac": "callable" if hard else gen.pick(rng, ["callable", "callable", "callable", None, "2-point"]),  # (acceptance decisions at their threshold + differencing noise: not decidable)
-               "maxfun": int(gen.pick(rng, [100000, 100000, 60, 120, 250]))}
+               "maxfun": int(gen.pick(rng, [100000, 100000, 60, 120, 250])), "rel": gen.pick(rng, [None, None, 1e-6, 1e-3, 1e-2])}
 
 
 def relerr(a, b):
@@ -117,6 +117,9 @@ def run(spec):
     P = gen.make_problem(spec["problem"])
     base = dict(jac=spec.get("jac", "callable"), maxcor=spec["maxcor"], maxls=spec["maxls"], ftol=0.0, gtol=1e-12,
                 maxfun=spec.get("maxfun", 100000), eps=spec.get("eps", 1e-8), eps_SY=spec.get("eps_SY", 2.2e-16), x0_same_object=True)
+    if base["jac"] in ("2-point", "3-point") and spec.get("rel") is not None:
+        base["finite_diff_rel_step"] = spec["rel"]  # the user's relative differencing step
+        out.count("finite_difference_problems_with_user_relative_step")
     XT = 1e-9
     if base["jac"] != "callable":
         out.count("finite_difference_problems")
@@ -283,6 +286,17 @@ def run(spec):
             if not ok:
                 out.violate("reduced_maxcor_pairs_not_most_recent", f"{where}: zero-iteration restart with maxcor={m2} does not return the {m2} most recent pairs: {why}",
                             what="reduced", **tags)
+                break
+            # ... and the same checkpoint object, used again with the full memory, still carries all its pairs
+            zb = restart(ck, k)
+            out.count("full_memory_restarts_after_a_reduced_one")
+            if zb.exc is not None:
+                out.violate("restart_raised", f"{where}: restart after a reduced-memory restart from the same checkpoint raised {zb.exc!r}", what="reduced", **tags)
+                break
+            ok, why = pairs_close(zb.snap["sk"], zb.snap["yk"], ck_snap["sk"], ck_snap["yk"], ck_snap["x"], ck_snap["jac"])
+            if not ok or probes.diff_states(probes.snap_state(ck), ck_snap):
+                out.violate("checkpoint_changed_by_reduced_memory_restart", f"{where}: after a restart with maxcor={m2} the same checkpoint object no longer yields its "
+                            f"{npairs} pairs ({why}; fields changed: {probes.diff_states(probes.snap_state(ck), ck_snap)})", what="reduced", **tags)
                 break
     out.keys = keys
     out.nontrivial = bool(keys)
